@@ -439,7 +439,8 @@ def witness_string(m, p):
 
 PATHS = ["~", "~/x", "~x", "~é", "~é/lua", "~日本", "./", "./x", ".", "", "é", "$", "${", "{", "}", "{}", "{env}", "{env:}", "{env:HOME}/x",
          "${workspaceFolder}", "{workspaceFolder}/a", "lib/{env}", "~/{env}/x", "$HOME", "$é", "{luarocks}", "a/{b", "${env:X}", "~\\x", "{é}"]
-JSONS = ['[]', 'null', '42', '"oops"', '{"": true}', '{".": 1}', '{"": {"": []}}', '{"a": 1, "a.b": 2}', '{"a.b": 2, "a": 1}', '{"a": {"b": 1}, "a.b": 2}',
+JSONS = ['{"a": 1, "a.b.c": 2}', '{"k": "x", "k.b": {"c": 1}}', '{"q": null, "q.r.s": true}', '{"m": 0, "m.n.o.p": 1}', '{"z": false, "z.y": {"x": {"w": 1}}}', '{"d": 1, "d.e.f": 2, "d.g.h": 3}',
+         '[]', 'null', '42', '"oops"', '{"": true}', '{".": 1}', '{"": {"": []}}', '{"a": 1, "a.b": 2}', '{"a.b": 2, "a": 1}', '{"a": {"b": 1}, "a.b": 2}',
          '{"workspace": 3}', '{"workspace.library": "x"}', '{"diagnostics": {"disable": 5}}', '{"Lua.workspace.library": ["~"]}', '{"a..b": 1}', '{"a.": 1}', '{".a": 1}']
 
 
